@@ -91,7 +91,13 @@ def is_essential(f, P):
     Anything else that fails inside the property's proof chain only costs the property its proof: the decision then rests on
     the property's own bounded check of the real code."""
     if f.get('kani_harness'):
-        return f['kani_harness'] in P.get('kani_essential', P.get('kani', []) + P.get('kani_thorough', []))
+        if f['kani_harness'] not in P.get('kani_essential', P.get('kani', []) + P.get('kani_thorough', [])):
+            return False
+        # a harness asserts several things (value, position, acceptance): only the assertions that state this property count
+        for hpat, cpat in P.get('kani_check_filter', {}).items():
+            if re.search(hpat, f['kani_harness']):
+                return bool(re.search(cpat, f.get('message', '')))
+        return True
     if f['obligation'].startswith('bounded::'):
         return True
     owner, kind = f.get('owner') or '', f.get('kind')
